@@ -26,6 +26,8 @@ DRIVERS = [
     (r"wallet\.Wallet\)\.swapToSend$", r"callsite:slices\.Sort@sendfee", "wallet", WALLET_FILES, "TestVerifReplay_SendFeeEstimate", {"Amount": 3, "FeePpk": 1000}),
     (r"wallet\.Wallet\)\.getActiveKeyset$", r"post@past|inv-", "wallet", WALLET_FILES, "TestVerifReplay_FeeChangeRewindsCounter", None),
     (r"wallet\.Restore$", r"callsite:storage\.WalletDB\.IncrementKeysetCounter|shape:", "wallet", WALLET_FILES, "TestVerifReplay_RestoreCounter", None),
+    (r"wallet\.Wallet\)\.swapToTrusted$", r"callsite:wallet\.Wallet\.swapProofs@sigallpath|pre:wallet\.Wallet\.swapProofs", "wallet", WALLET_FILES, "TestVerifReplay_SwapToTrustedReusesCounters", None),
+    (r"wallet\.Wallet\)\.(Receive|ReceiveHTLC|ReclaimUnspentProofs)$", r"post@past|callsite:storage\.WalletDB\.IncrementKeysetCounter@count", "wallet", WALLET_FILES, "TestVerifReplay_ReceiveAdvancesCounter", None),
     (r"wallet/client\.PostSwap$", r"callsite:json\.Marshal@nodleq", "wallet/client", CLIENT_FILES, "TestVerifReplay_SwapRequestCarriesDLEQ", None),
     (r"wallet/client\.PostMeltBolt11$", r"callsite:json\.Marshal@nodleq", "wallet/client", CLIENT_FILES, "TestVerifReplay_MeltRequestCarriesDLEQ", None),
     (r"mint\.Mint\)\.Swap$", r"boundary@", "mint", MINT_FILES, "TestVerifReplay_SwapCrashPoint", None),
